@@ -640,6 +640,7 @@ func (st *state) loader(load, fetch, clear *core.Fn) {
 		var found []types.Object
 		for o := range cands {
 			okDefs := true
+			adjusted := false // some definition is the 'unknown run id' value -1: a plain copy is just another name
 			for _, d := range tt.DefsOf(info, body, o) {
 				if _, isDecl := d.Stmt.(*ast.ValueSpec); isDecl && d.Rhs == nil {
 					continue
@@ -649,13 +650,14 @@ func (st *state) loader(load, fetch, clear *core.Fn) {
 					continue
 				}
 				if v, isConst := core.IntConst(info, d.Rhs); isConst && v == -1 {
+					adjusted = true
 					continue
 				}
 				if !isRec(d.Rhs, 3) {
 					okDefs = false
 				}
 			}
-			if okDefs {
+			if okDefs && adjusted {
 				found = append(found, o)
 			}
 		}
@@ -1042,7 +1044,57 @@ func (st *state) clearer(fn *core.Fn) {
 	}
 	loop, _ := x.LoopOf(hdel).(*ast.RangeStmt)
 	if loop == nil {
+		// a counting loop: the databases it visits are the numbers its counter runs through, not the
+		// keys of the keyspace map (unless it indexes a list of those keys)
+		if fs, isFor := x.LoopOf(hdel).(*ast.ForStmt); isFor {
+			if list, _ := tt.LoopElem(info, fs); list == nil {
+				var counter types.Object
+				switch post := fs.Post.(type) {
+				case *ast.IncDecStmt:
+					counter = localObj(info, post.X)
+				case *ast.AssignStmt:
+					if len(post.Lhs) == 1 {
+						counter = localObj(info, post.Lhs[0])
+					}
+				}
+				usedAsDb := false
+				if counter != nil {
+					ast.Inspect(fs.Body, func(n ast.Node) bool {
+						if call, ok := n.(*ast.CallExpr); ok && isDo(info, call, "select") && len(call.Args) == 2 && tt.MentionsResolved(info, body, call.Args[1], counter, 2) {
+							usedAsDb = true
+						}
+						return true
+					})
+				}
+				numeric := false
+				if counter != nil {
+					if b, ok := counter.Type().Underlying().(*types.Basic); ok && b.Info()&types.IsInteger != 0 {
+						numeric = true
+					}
+				}
+				if usedAsDb && numeric {
+					c.Failf("R5.clear", "ClearCheckpoint/loop", fs.Pos(), "the databases that are cleaned are the numbers the counter `%s` runs through (`%s`), not the databases listed in the keyspace map: with data in db0 and db3 only, the loop visits db0 and db1 and a stale checkpoint of this source in db3 survives and is resumed later", counter.Name(), c.Src(fs.Cond))
+					return
+				}
+			}
+		}
 		c.Undecidedf("R5.clear", "ClearCheckpoint/loop", hdel.Pos(), "hdel is not inside a range loop over the databases")
+		return
+	}
+	// the loop ranges over the keyspace map handed in (the databases that exist on the target)
+	{
+		rx := tt.Resolve(info, body, loop.X, 4)
+		_, isMap := info.TypeOf(loop.X).Underlying().(*types.Map)
+		switch {
+		case isMap && paramIndex(info, fn, rx) >= 0 && loop.Key != nil:
+			c.Okf("R5.clear", "ClearCheckpoint/loop", loop.Pos(), "the databases cleaned are the keys of the keyspace map")
+		case isMap && loop.Key != nil:
+			c.Undecidedf("R5.clear", "ClearCheckpoint/loop", loop.Pos(), "the map `%s` that is ranged over is not the keyspace map parameter", c.Src(loop.X))
+		default:
+			c.Undecidedf("R5.clear", "ClearCheckpoint/loop", loop.Pos(), "the sequence `%s` that is ranged over is not recognised as the databases of the keyspace map", c.Src(loop.X))
+		}
+	}
+	if loop.Key == nil {
 		return
 	}
 	db := localObj(info, loop.Key)
